@@ -20,9 +20,9 @@ def schedules_from_model(ctx, cfg, name, maxattempts, closeconn=True, fallback=T
     return out, nstates, len(edges)
 
 
-def schedules_from_simulation(ctx, n, maxattempts=7):
-    """Random behaviours of the two-start model (tlc -simulate) as replay schedules."""
-    r = ctx.tlc("ClientSim", "ClientSim.cfg", workers=1, heap_gb=6, timeout=1200,
+def schedules_from_simulation(ctx, n, maxattempts=7, cfg="ClientSim.cfg"):
+    """Random behaviours of a Client model (tlc -simulate) as replay schedules."""
+    r = ctx.tlc("ClientSim", cfg, workers=1, heap_gb=6, timeout=1200,
                 extra=("-simulate", "num=%d" % n, "-depth", "62", "-seed", str(ctx.seed)))
     out = []
     for ln in r["out"].splitlines():
@@ -66,6 +66,7 @@ def run(ctx, mode):
         for cfg, name, ma, cc, fb, smp in [
                 ("ClientMC_cover.cfg", "transition cover source: 1 start, default retransmission, 1 failing write, 1 response", 7, True, True, 4000 if quick else None),
                 ("ClientMC_cover_deep.cfg", "transition cover source: the whole retransmission chain (7 retransmissions, final timeout), a failing write at any attempt", 7, True, True, 3000 if quick else None),
+                ("ClientMC_cover_rto.cfg", "transition cover source: SetRTO before/after Start, unit clock steps, fruitless Collect calls between deadlines", 7, True, True, 1500 if quick else None),
                 ("ClientMC_cover_noretx.cfg", "transition cover source: WithNoRetransmit, duplicate response, junk datagram", 0, True, True, 2500 if quick else None),
                 ("ClientMC_cover_noconnclose.cfg", "transition cover source: WithNoConnClose, no fallback handler", 7, False, False, 1500 if quick else None)]:
             s, ns, ne = schedules_from_model(ctx, cfg, name, ma, closeconn=cc, fallback=fb, sample=smp)
@@ -74,10 +75,15 @@ def run(ctx, mode):
         sim, nsimstates = schedules_from_simulation(ctx, 1500 if quick else 20000)
         stats["ClientSim.cfg"] = {"behaviours": len(sim), "states_visited": nsimstates}
         scheds += sim
+        # history-dependent orders (SetRTO before/after the snapshot, before/after a retransmission; fruitless
+        # Collect calls between deadlines) are not distinguished by states: random behaviours supply them
+        simr, nsr = schedules_from_simulation(ctx, (3000 if mode == "C11" else 500) if quick else 30000, cfg="ClientSimRto.cfg")
+        stats["ClientSimRto.cfg"] = {"behaviours": len(simr), "states_visited": nsr}
+        scheds += simr
         sizes = [20, 20, 20, 1500, 1501, 2048, 2049, 4096, 65535]
         rnd = random.Random(ctx.seed)
         for i, s in enumerate(scheds):
-            s["msgsize"] = sizes[rnd.randrange(len(sizes))] if mode == "C11" else 20
+            s["msgsize"] = (65535 if i % 60 == 7 else sizes[rnd.randrange(len(sizes) - 1)]) if mode == "C11" else 20
             # the agent's or the connection's Close reports an error in a share of the schedules
             s["closefault"] = ["", "", "conn", "agent"][i % 4] if mode == "C15" else ""
         with open(vec, "w") as fh:
